@@ -2,46 +2,6 @@ import AnySyncModel.Ldiff.Spec
 /-! Helper lemmas for C07 / C08 (core Lean only). -/
 namespace AnySync.Ldiff
 
-theorem filterMap_congr' {α β} {f g : α → Option β} {l : List α} (h : ∀ a ∈ l, f a = g a) :
-    l.filterMap f = l.filterMap g := by
-  induction l with
-  | nil => rfl
-  | cons x xs ih =>
-    have hx := h x (by simp)
-    have ih' := ih (fun a ha => h a (by simp [ha]))
-    simp [List.filterMap_cons, hx, ih']
-
-/-! ### children as list / as function -/
-
-theorem ofList_map_range {D} (df : Nat) (f : Nat → Tree D) (i : Nat) :
-    ofList ((List.range df).map f) i = if i < df then f i else .leaf 0 none := by
-  unfold ofList
-  rw [List.getD_eq_getElem?_getD, List.getElem?_map]
-  by_cases h : i < df
-  · rw [List.getElem?_range h]; simp [h]
-  · have : (List.range df)[i]? = none := List.getElem?_eq_none (by simp; omega)
-    rw [this]; simp [h]
-
-theorem kidsHash_ofList {D} (A : DigAlg D) (df : Nat) (f : Nat → Tree D) :
-    kidsHash A df (ofList ((List.range df).map f)) = listHash A ((List.range df).map f) := by
-  unfold kidsHash listHash
-  congr 2
-  rw [List.filterMap_map]
-  apply filterMap_congr'
-  intro i hi
-  have : i < df := by simpa using hi
-  simp [ofList_map_range, this]
-
-/-- `kidsHash` only looks at the first `df` children -/
-theorem kidsHash_congr {D} (A : DigAlg D) (df : Nat) (k k' : Nat → Tree D)
-    (h : ∀ i, i < df → k i = k' i) : kidsHash A df k = kidsHash A df k' := by
-  unfold kidsHash
-  congr 2
-  apply filterMap_congr'
-  intro i hi
-  have : i < df := by simpa using hi
-  simp [h i this]
-
 /-! ### the skip list -/
 
 def inR (lo hi : Nat) (e : Elem) : Bool := decide (lo ≤ e.hash) && decide (e.hash ≤ hi)
@@ -83,57 +43,370 @@ theorem slRange_insert_len (e : Elem) (sl : List Elem) (lo hi : Nat)
 /-! ### well-split ranges and the width hypothesis -/
 
 /-- what the division of `[lo,hi]` into `df` parts must satisfy: the parts lie inside the range,
-and `getBottomRange` returns the one part that contains the hash. Proved for every range that is
-not narrower than `df` (`splitOk_of_wide`). -/
-structure SplitOk (df lo hi : Nat) : Prop where
-  sub : ∀ i, i < df → lo ≤ (childRange lo hi df i).1 ∧ (childRange lo hi df i).2 ≤ hi
-  bucket : ∀ h, lo ≤ h → h ≤ hi → ∃ i, bucketOf lo hi df h = some i ∧ i < df ∧
-      ((childRange lo hi df i).1 ≤ h ∧ h ≤ (childRange lo hi df i).2) ∧
-      ∀ j, j < df → j ≠ i → ¬ ((childRange lo hi df j).1 ≤ h ∧ h ≤ (childRange lo hi df j).2)
+and `bucket` returns the one part that contains the hash. Proved for the Go arithmetic and every
+range that is not narrower than `df` in `Ldiff/Arith.lean` (`goSplit_ok`). -/
+structure SplitOk (S : Splitter) (df lo hi : Nat) : Prop where
+  sub : ∀ i, i < df → lo ≤ (S.child lo hi df i).1 ∧ (S.child lo hi df i).2 ≤ hi
+  bucket : ∀ h, lo ≤ h → h ≤ hi → ∃ i, S.bucket lo hi df h = some i ∧ i < df ∧
+      ((S.child lo hi df i).1 ≤ h ∧ h ≤ (S.child lo hi df i).2) ∧
+      ∀ j, j < df → j ≠ i → ¬ ((S.child lo hi df j).1 ≤ h ∧ h ≤ (S.child lo hi df j).2)
 
 /-- the hypothesis of termination (F-ldiff-width): every range that has to be divided (more than
 `thr` elements) splits properly, down to the depth budget. -/
-def WidthOk (p : Params) (sl : List Elem) : Nat → Nat → Nat → Prop
+def WidthOk (S : Splitter) (p : Params) (sl : List Elem) : Nat → Nat → Nat → Prop
   | 0, lo, hi => (slRange sl lo hi).length ≤ p.thr
   | f + 1, lo, hi => (slRange sl lo hi).length ≤ p.thr ∨
-      (SplitOk p.df lo hi ∧
-        ∀ i, i < p.df → WidthOk p sl f (childRange lo hi p.df i).1 (childRange lo hi p.df i).2)
+      (SplitOk S p.df lo hi ∧
+        ∀ i, i < p.df → WidthOk S p sl f (S.child lo hi p.df i).1 (S.child lo hi p.df i).2)
 
 /-- `sl'` differs from `sl` only at hash `x` -/
 def OnlyAt (x : Nat) (sl sl' : List Elem) : Prop :=
   ∀ a b, ¬ (a ≤ x ∧ x ≤ b) → slRange sl' a b = slRange sl a b
 
-theorem build_out {D} (A : DigAlg D) (p : Params) (sl sl' : List Elem) (x : Nat)
+/-- the width hypothesis is inherited by smaller contents -/
+theorem widthOk_mono (S : Splitter) (p : Params) (sl sl' : List Elem)
+    (hle : ∀ a b, (slRange sl' a b).length ≤ (slRange sl a b).length) :
+    ∀ fuel lo hi, WidthOk S p sl fuel lo hi → WidthOk S p sl' fuel lo hi := by
+  intro fuel
+  induction fuel with
+  | zero => intro lo hi hw; simp only [WidthOk] at hw ⊢; have := hle lo hi; omega
+  | succ f ih =>
+    intro lo hi hw
+    simp only [WidthOk] at hw ⊢
+    rcases hw with hw | hw
+    · left; have := hle lo hi; omega
+    · right; exact ⟨hw.1, fun i hi' => ih _ _ (hw.2 i hi')⟩
+
+/-! ### unfolding lemmas, stated once (all by `rfl`) -/
+section eqs
+variable {D : Type} (A : DigAlg D) (S : Splitter) (p : Params) (sl : List Elem)
+
+theorem build_zero (lo hi : Nat) :
+    build A S p sl 0 lo hi = if (slRange sl lo hi).length > p.thr then .stuck else mkLeaf A sl lo hi := rfl
+
+theorem build_succ (f lo hi : Nat) :
+    build A S p sl (f + 1) lo hi =
+      if (slRange sl lo hi).length > p.thr then
+        .div (slRange sl lo hi).length (kidsHash A (buildKids A S p sl f lo hi)) (buildKids A S p sl f lo hi)
+      else mkLeaf A sl lo hi := rfl
+
+theorem addEl_zero_leaf (h c lo hi : Nat) (d : Option D) :
+    addEl A S p sl h 0 (.leaf c d) lo hi = if c + 1 > p.thr then .stuck else mkLeaf A sl lo hi := rfl
+
+theorem addEl_succ_leaf (h f c lo hi : Nat) (d : Option D) :
+    addEl A S p sl h (f + 1) (.leaf c d) lo hi =
+      if c + 1 > p.thr then
+        .div (c + 1) (kidsHash A (buildKids A S p sl f lo hi)) (buildKids A S p sl f lo hi)
+      else mkLeaf A sl lo hi := rfl
+
+theorem addEl_succ_div (h f c lo hi : Nat) (d : Option D) (kids : List (Tree D)) :
+    addEl A S p sl h (f + 1) (.div c d kids) lo hi =
+      match S.bucket lo hi p.df h with
+      | none => .stuck
+      | some i =>
+        .div (c + 1)
+          (kidsHash A (kids.set i
+            (addEl A S p sl h f (kid kids i) (S.child lo hi p.df i).1 (S.child lo hi p.df i).2)))
+          (kids.set i
+            (addEl A S p sl h f (kid kids i) (S.child lo hi p.df i).1 (S.child lo hi p.df i).2)) := rfl
+
+theorem updEl_zero_leaf (h c lo hi : Nat) (d : Option D) :
+    updEl A S p sl h 0 (.leaf c d) lo hi = mkLeaf A sl lo hi := rfl
+
+theorem updEl_succ_leaf (h f c lo hi : Nat) (d : Option D) :
+    updEl A S p sl h (f + 1) (.leaf c d) lo hi = mkLeaf A sl lo hi := rfl
+
+theorem updEl_succ_div (h f c lo hi : Nat) (d : Option D) (kids : List (Tree D)) :
+    updEl A S p sl h (f + 1) (.div c d kids) lo hi =
+      match S.bucket lo hi p.df h with
+      | none => .stuck
+      | some i =>
+        .div c
+          (kidsHash A (kids.set i
+            (updEl A S p sl h f (kid kids i) (S.child lo hi p.df i).1 (S.child lo hi p.df i).2)))
+          (kids.set i
+            (updEl A S p sl h f (kid kids i) (S.child lo hi p.df i).1 (S.child lo hi p.df i).2)) := rfl
+
+theorem rmEl_zero_leaf (h c lo hi : Nat) (d : Option D) :
+    rmEl A S p sl h 0 (.leaf c d) lo hi = (mkLeaf A sl lo hi, true) := rfl
+
+theorem rmEl_succ_leaf (h f c lo hi : Nat) (d : Option D) :
+    rmEl A S p sl h (f + 1) (.leaf c d) lo hi = (mkLeaf A sl lo hi, true) := rfl
+
+theorem rmEl_succ_div (h f c lo hi : Nat) (d : Option D) (kids : List (Tree D)) :
+    rmEl A S p sl h (f + 1) (.div c d kids) lo hi =
+      match S.bucket lo hi p.df h with
+      | none => (.stuck, false)
+      | some i =>
+        if (rmEl A S p sl h f (kid kids i) (S.child lo hi p.df i).1 (S.child lo hi p.df i).2).2
+            && decide (c - 1 ≤ p.thr) then
+          (mkLeaf A sl lo hi, true)
+        else
+          (.div (c - 1)
+            (kidsHash A (kids.set i
+              (rmEl A S p sl h f (kid kids i) (S.child lo hi p.df i).1 (S.child lo hi p.df i).2).1))
+            (kids.set i
+              (rmEl A S p sl h f (kid kids i) (S.child lo hi p.df i).1 (S.child lo hi p.df i).2).1),
+           false) := rfl
+
+theorem topOp_div (h : Nat) (dc : Nat → Nat) (f : Tree D → Nat → Nat → Tree D) (c : Nat)
+    (d : Option D) (kids : List (Tree D)) :
+    topOp A S p h dc f (.div c d kids) =
+      match S.bucket 0 (M - 1) p.df h with
+      | none => .stuck
+      | some i =>
+        .div (dc c)
+          (kidsHash A (kids.set i
+            (f (kid kids i) (S.child 0 (M - 1) p.df i).1 (S.child 0 (M - 1) p.df i).2)))
+          (kids.set i
+            (f (kid kids i) (S.child 0 (M - 1) p.df i).1 (S.child 0 (M - 1) p.df i).2)) := rfl
+
+theorem kid_buildKids (f lo hi i : Nat) (hi' : i < p.df) :
+    kid (buildKids A S p sl f lo hi) i
+      = build A S p sl f (S.child lo hi p.df i).1 (S.child lo hi p.df i).2 := by
+  unfold kid buildKids
+  rw [List.getD_eq_getElem?_getD, List.getElem?_map, List.getElem?_range hi']
+  rfl
+
+end eqs
+
+/-! ### locality: a range that does not contain the changed hash keeps its subtree -/
+
+theorem build_out {D} (A : DigAlg D) (S : Splitter) (p : Params) (sl sl' : List Elem) (x : Nat)
     (hout : OnlyAt x sl sl') :
-    ∀ fuel lo hi, ¬ (lo ≤ x ∧ x ≤ hi) → WidthOk p sl' fuel lo hi →
-      build A p sl' fuel lo hi = build A p sl fuel lo hi := by
+    ∀ fuel lo hi, ¬ (lo ≤ x ∧ x ≤ hi) → WidthOk S p sl' fuel lo hi →
+      build A S p sl' fuel lo hi = build A S p sl fuel lo hi := by
   intro fuel
   induction fuel with
   | zero =>
     intro lo hi hx _
-    simp only [build, mkLeaf, hout lo hi hx]
+    rw [build_zero, build_zero, hout lo hi hx]
+    unfold mkLeaf
+    rw [hout lo hi hx]
   | succ f ih =>
     intro lo hi hx hw
-    simp only [build, mkLeaf, hout lo hi hx]
-    split
-    · rename_i hc
-      have hw' : SplitOk p.df lo hi ∧ ∀ i, i < p.df →
-          WidthOk p sl' f (childRange lo hi p.df i).1 (childRange lo hi p.df i).2 := by
+    rw [build_succ, build_succ, hout lo hi hx]
+    unfold mkLeaf
+    rw [hout lo hi hx]
+    by_cases hc : (slRange sl lo hi).length > p.thr
+    · have hw' : SplitOk S p.df lo hi ∧ ∀ i, i < p.df →
+          WidthOk S p sl' f (S.child lo hi p.df i).1 (S.child lo hi p.df i).2 := by
         rcases hw with hw | hw
         · rw [hout lo hi hx] at hw; omega
         · exact hw
-      have hl : (List.range p.df).map (fun i =>
-            build A p sl' f (childRange lo hi p.df i).1 (childRange lo hi p.df i).2)
-          = (List.range p.df).map (fun i =>
-            build A p sl f (childRange lo hi p.df i).1 (childRange lo hi p.df i).2) := by
+      have hl : buildKids A S p sl' f lo hi = buildKids A S p sl f lo hi := by
+        unfold buildKids
         apply List.map_congr_left
         intro i hi'
         have hi2 : i < p.df := by simpa using hi'
         have hs := hw'.1.sub i hi2
         apply ih _ _ _ (hw'.2 i hi2)
         intro hh; apply hx; omega
-      simp only [hl]
-    · rfl
+      rw [hl]
+    · rw [if_neg hc, if_neg hc]
 
+/-- replacing child `i` of the old children by the new subtree gives exactly the new children -/
+theorem set_buildKids {D} (A : DigAlg D) (S : Splitter) (p : Params) (sl sl' : List Elem) (x : Nat)
+    (hout : OnlyAt x sl sl') (f lo hi i : Nat)
+    (hw : ∀ j, j < p.df → WidthOk S p sl' f (S.child lo hi p.df j).1 (S.child lo hi p.df j).2)
+    (hothers : ∀ j, j < p.df → j ≠ i →
+      ¬ ((S.child lo hi p.df j).1 ≤ x ∧ x ≤ (S.child lo hi p.df j).2)) :
+    (buildKids A S p sl f lo hi).set i (build A S p sl' f (S.child lo hi p.df i).1 (S.child lo hi p.df i).2)
+      = buildKids A S p sl' f lo hi := by
+  apply List.ext_getElem?
+  intro j
+  unfold buildKids
+  rw [List.getElem?_set]
+  by_cases hj : j < p.df
+  · by_cases hji : i = j
+    · subst hji
+      simp [hj]
+    · simp only [hji, if_false, List.getElem?_map, List.getElem?_range hj, Option.map_some]
+      congr 1
+      exact (build_out A S p sl sl' x hout f _ _ (hothers j hj (fun h => hji h.symm)) (hw j hj)).symm
+  · have hn : (List.range p.df)[j]? = none := List.getElem?_eq_none (by simp; omega)
+    by_cases hji : i = j
+    · subst hji; simp [hj]
+    · simp [hji, hn]
+
+/-! ### the three refinement steps below the top range -/
+
+theorem addEl_build {D} (A : DigAlg D) (S : Splitter) (p : Params) (sl sl' : List Elem) (x : Nat)
+    (hout : OnlyAt x sl sl')
+    (hlen : ∀ a b, a ≤ x → x ≤ b → (slRange sl' a b).length = (slRange sl a b).length + 1) :
+    ∀ fuel lo hi, lo ≤ x → x ≤ hi → WidthOk S p sl' fuel lo hi →
+      addEl A S p sl' x fuel (build A S p sl fuel lo hi) lo hi = build A S p sl' fuel lo hi := by
+  intro fuel
+  induction fuel with
+  | zero =>
+    intro lo hi h1 h2 hw
+    have hl := hlen lo hi h1 h2
+    simp only [WidthOk] at hw
+    have hc : ¬ (slRange sl lo hi).length > p.thr := by omega
+    have hc' : ¬ (slRange sl' lo hi).length > p.thr := by omega
+    have h3 : ¬ (slRange sl lo hi).length + 1 > p.thr := by omega
+    rw [build_zero, build_zero, if_neg hc, if_neg hc']
+    unfold mkLeaf
+    rw [addEl_zero_leaf, if_neg h3]
+    rfl
+  | succ f ih =>
+    intro lo hi h1 h2 hw
+    have hl := hlen lo hi h1 h2
+    rw [build_succ, build_succ]
+    by_cases hc : (slRange sl lo hi).length > p.thr
+    · have hc' : (slRange sl' lo hi).length > p.thr := by omega
+      have hw' : SplitOk S p.df lo hi ∧ ∀ i, i < p.df →
+          WidthOk S p sl' f (S.child lo hi p.df i).1 (S.child lo hi p.df i).2 := by
+        rcases hw with hw | hw
+        · omega
+        · exact hw
+      obtain ⟨i, hb, hi', hin, hothers⟩ := hw'.1.bucket x h1 h2
+      rw [if_pos hc, if_pos hc', addEl_succ_div, hb]
+      simp only []
+      rw [kid_buildKids A S p sl f lo hi i hi', ih _ _ hin.1 hin.2 (hw'.2 i hi'),
+        set_buildKids A S p sl sl' x hout f lo hi i hw'.2 hothers, hl]
+    · rw [if_neg hc]
+      by_cases hc' : (slRange sl' lo hi).length > p.thr
+      · have h3 : (slRange sl lo hi).length + 1 > p.thr := by omega
+        rw [if_pos hc']
+        unfold mkLeaf
+        rw [addEl_succ_leaf, if_pos h3, hl]
+      · have h3 : ¬ (slRange sl lo hi).length + 1 > p.thr := by omega
+        rw [if_neg hc']
+        unfold mkLeaf
+        rw [addEl_succ_leaf, if_neg h3]
+        rfl
+
+theorem updEl_build {D} (A : DigAlg D) (S : Splitter) (p : Params) (sl sl' : List Elem) (x : Nat)
+    (hout : OnlyAt x sl sl')
+    (hlen : ∀ a b, (slRange sl' a b).length = (slRange sl a b).length) :
+    ∀ fuel lo hi, lo ≤ x → x ≤ hi → WidthOk S p sl' fuel lo hi →
+      updEl A S p sl' x fuel (build A S p sl fuel lo hi) lo hi = build A S p sl' fuel lo hi := by
+  intro fuel
+  induction fuel with
+  | zero =>
+    intro lo hi h1 h2 hw
+    have hl := hlen lo hi
+    simp only [WidthOk] at hw
+    have hc : ¬ (slRange sl lo hi).length > p.thr := by omega
+    have hc' : ¬ (slRange sl' lo hi).length > p.thr := by omega
+    rw [build_zero, build_zero, if_neg hc, if_neg hc']
+    unfold mkLeaf
+    rw [updEl_zero_leaf]
+    rfl
+  | succ f ih =>
+    intro lo hi h1 h2 hw
+    have hl := hlen lo hi
+    rw [build_succ, build_succ]
+    by_cases hc : (slRange sl lo hi).length > p.thr
+    · have hc' : (slRange sl' lo hi).length > p.thr := by omega
+      have hw' : SplitOk S p.df lo hi ∧ ∀ i, i < p.df →
+          WidthOk S p sl' f (S.child lo hi p.df i).1 (S.child lo hi p.df i).2 := by
+        rcases hw with hw | hw
+        · omega
+        · exact hw
+      obtain ⟨i, hb, hi', hin, hothers⟩ := hw'.1.bucket x h1 h2
+      rw [if_pos hc, if_pos hc', updEl_succ_div, hb]
+      simp only []
+      rw [kid_buildKids A S p sl f lo hi i hi', ih _ _ hin.1 hin.2 (hw'.2 i hi'),
+        set_buildKids A S p sl sl' x hout f lo hi i hw'.2 hothers, hl]
+    · have hc' : ¬ (slRange sl' lo hi).length > p.thr := by omega
+      rw [if_neg hc, if_neg hc']
+      unfold mkLeaf
+      rw [updEl_succ_leaf]
+      rfl
+
+/-- a sub-range holds at most as many elements as a range containing it -/
+theorem slRange_len_mono (sl : List Elem) (a b lo hi : Nat) (h1 : lo ≤ a) (h2 : b ≤ hi) :
+    (slRange sl a b).length ≤ (slRange sl lo hi).length := by
+  simp only [slRange_eq]
+  induction sl with
+  | nil => simp
+  | cons e es ih =>
+    simp only [List.filter_cons]
+    by_cases hin : inR a b e = true
+    · have : inR lo hi e = true := by
+        have := inR_true.mp hin
+        exact inR_true.mpr ⟨by omega, by omega⟩
+      simp [hin, this, ih]
+    · have hf : inR a b e = false := by
+        cases h : inR a b e
+        · rfl
+        · exact absurd h hin
+      rw [hf]
+      simp only [Bool.false_eq_true, if_false]
+      split
+      · simp only [List.length_cons]; omega
+      · exact ih
+
+/-- removal: the result is the canonical subtree of the new contents, and the merge loop is still
+active exactly when that subtree is an undivided range. `WidthOk` is needed for the OLD contents. -/
+theorem rmEl_build {D} (A : DigAlg D) (S : Splitter) (p : Params) (sl sl' : List Elem) (x : Nat)
+    (hout : OnlyAt x sl sl')
+    (hlen : ∀ a b, a ≤ x → x ≤ b → (slRange sl' a b).length + 1 = (slRange sl a b).length)
+    (hle : ∀ a b, (slRange sl' a b).length ≤ (slRange sl a b).length) :
+    ∀ fuel lo hi, lo ≤ x → x ≤ hi → WidthOk S p sl fuel lo hi →
+      rmEl A S p sl' x fuel (build A S p sl fuel lo hi) lo hi
+        = (build A S p sl' fuel lo hi, decide ((slRange sl' lo hi).length ≤ p.thr)) := by
+  intro fuel
+  induction fuel with
+  | zero =>
+    intro lo hi h1 h2 hw
+    have hl := hlen lo hi h1 h2
+    simp only [WidthOk] at hw
+    have hc : ¬ (slRange sl lo hi).length > p.thr := by omega
+    have hc' : ¬ (slRange sl' lo hi).length > p.thr := by omega
+    have hd : (slRange sl' lo hi).length ≤ p.thr := by omega
+    rw [build_zero, build_zero, if_neg hc, if_neg hc']
+    unfold mkLeaf
+    rw [rmEl_zero_leaf]
+    simp [mkLeaf, hd]
+  | succ f ih =>
+    intro lo hi h1 h2 hw
+    have hl := hlen lo hi h1 h2
+    rw [build_succ, build_succ]
+    by_cases hc : (slRange sl lo hi).length > p.thr
+    · have hw' : SplitOk S p.df lo hi ∧ ∀ i, i < p.df →
+          WidthOk S p sl f (S.child lo hi p.df i).1 (S.child lo hi p.df i).2 := by
+        rcases hw with hw | hw
+        · omega
+        · exact hw
+      obtain ⟨i, hb, hi', hin, hothers⟩ := hw'.1.bucket x h1 h2
+      rw [if_pos hc, rmEl_succ_div, hb]
+      simp only []
+      rw [kid_buildKids A S p sl f lo hi i hi', ih _ _ hin.1 hin.2 (hw'.2 i hi')]
+      by_cases hc' : (slRange sl' lo hi).length > p.thr
+      · -- still divided: no merge
+        have hcond : (decide ((slRange sl' (S.child lo hi p.df i).1 (S.child lo hi p.df i).2).length ≤ p.thr)
+            && decide ((slRange sl lo hi).length - 1 ≤ p.thr)) = false := by
+          have : ¬ ((slRange sl lo hi).length - 1 ≤ p.thr) := by omega
+          simp [this]
+        rw [hcond, if_pos hc']
+        simp only [Bool.false_eq_true, if_false]
+        have hws : ∀ j, j < p.df →
+            WidthOk S p sl' f (S.child lo hi p.df j).1 (S.child lo hi p.df j).2 := by
+          intro j hj
+          exact widthOk_mono S p sl sl' hle f _ _ (hw'.2 j hj)
+        rw [set_buildKids A S p sl sl' x hout f lo hi i hws hothers]
+        have hd : ¬ ((slRange sl' lo hi).length ≤ p.thr) := by omega
+        have hcnt : (slRange sl lo hi).length - 1 = (slRange sl' lo hi).length := by omega
+        simp [hd, hcnt]
+      · -- dropped to the threshold: merged
+        have hsub := hw'.1.sub i hi'
+        have hm := slRange_len_mono sl' _ _ lo hi hsub.1 hsub.2
+        have hcond : (decide ((slRange sl' (S.child lo hi p.df i).1 (S.child lo hi p.df i).2).length ≤ p.thr)
+            && decide ((slRange sl lo hi).length - 1 ≤ p.thr)) = true := by
+          have h1' : (slRange sl' (S.child lo hi p.df i).1 (S.child lo hi p.df i).2).length ≤ p.thr := by omega
+          have h2' : (slRange sl lo hi).length - 1 ≤ p.thr := by omega
+          simp [h1', h2']
+        rw [hcond, if_neg hc']
+        have hd : (slRange sl' lo hi).length ≤ p.thr := by omega
+        simp [hd]
+    · have hc' : ¬ (slRange sl' lo hi).length > p.thr := by omega
+      have hd : (slRange sl' lo hi).length ≤ p.thr := by omega
+      rw [if_neg hc, if_neg hc']
+      unfold mkLeaf
+      rw [rmEl_succ_leaf]
+      simp [mkLeaf, hd]
 
 end AnySync.Ldiff
